@@ -29,8 +29,9 @@ Bom == << Pm("b", "bom", "1.0", 0, <<P("a", <<L("4.4")>>)>>, <<>>,
              <<Dep("g", "z", <<L("8.0")>>, "", "", "", FALSE, <<>>), Dep("g", "x", <<R("a")>>, "", "", "", FALSE, <<>>), Dep("g", "w", <<R("project.version")>>, "", "", "", FALSE, <<>>)>>, <<>>, "b", "1.0") >>
 VARIABLES kind, item
 Init == kind = "start" /\ item = <<>>
-Lineages ==
-  { << Pm(IF inheritV THEN "" ELSE "g", "proj", IF inheritV THEN "" ELSE "5.0", IF np = 0 THEN 0 ELSE 2, cp, cd, cm,
+\* one lineage of the family (project, optional parent, optional grandparent)
+Lin(np, inheritV, cp, pp, cd, pd, cm, pm, prof, act) ==
+  << Pm(IF inheritV THEN "" ELSE "g", "proj", IF inheritV THEN "" ELSE "5.0", IF np = 0 THEN 0 ELSE 2, cp, cd, cm,
           \* an explicitly activated profile next to an activeByDefault one (the default one counts only when no other profile of the POM is active)
           IF prof = 1 THEN <<[act |-> act, props |-> <<P("a", <<L("6.6")>>)>>, deps |-> <<Dep("g", "prof", <<R("a")>>, "", "", "", FALSE, <<>>)>>, mgmt |-> <<>>],
                              [act |-> [NoAct EXCEPT !.kind = "default"], props |-> <<P("b", <<L("5.5")>>)>>, deps |-> <<Dep("g", "dflt", <<L("1.0")>>, "", "", "", FALSE, <<>>)>>, mgmt |-> <<>>]>> ELSE <<>>,
@@ -38,14 +39,19 @@ Lineages ==
      \o (IF np = 0 THEN <<>> ELSE << Pm("pg", "parent", "3.3", IF np = 2 THEN 3 ELSE 0, pp, pd, pm,
           IF prof = 2 THEN <<[act |-> act, props |-> <<P("b", <<L("7.7")>>)>>, deps |-> <<>>, mgmt |-> <<Dep("g", "z", <<L("0.1")>>, "", "", "", FALSE, <<>>)>>]>> ELSE <<>>, "pg", "3.3") >>)
      \o (IF np = 2 THEN << Pm("gg", "grand", "1.1", 0, <<P("c", <<L("gp")>>), P("a", <<L("0.0")>>)>>, <<Dep("g", "gd", <<R("c")>>, "", "", "", FALSE, <<>>)>>, <<>>, <<>>, "gg", "1.1") >> ELSE <<>>)
-    : np \in {0, 1, 2}, inheritV \in {FALSE}, cp \in (IF Big THEN PropTables ELSE PropTables \ {<<P("a", <<L("1.0")>>)>>, <<>>}), pp \in (IF Big THEN PropTables ELSE {<<>>, <<P("a", <<L("2.0")>>), P("b", <<R("a"), L("-x")>>)>>}),
-      cd \in UNION {DepLists(vt) : vt \in (IF Big THEN VerTemplates ELSE {<<R("a")>>, <<R("project.version")>>, <<R("c")>>})},
-      pd \in ParentDeps, cm \in MgmtLists, pm \in (IF Big THEN MgmtLists ELSE {<<>>, <<Dep("g", "z", <<R("a")>>, "", "", "", FALSE, <<>>), Dep("b", "bom", <<L("1.0")>>, "pom", "", "import", FALSE, <<>>)>>}),
-      prof \in {0, 1, 2}, act \in (IF Big THEN Acts ELSE {[NoAct EXCEPT !.kind = "default"], [NoAct EXCEPT !.kind = "jdk", !.nums = <<11>>, !.text = "11"], [NoAct EXCEPT !.kind = "jdkrange", !.lo = <<1, 8>>, !.hi = <<9>>, !.text = "[1.8,9)"], [NoAct EXCEPT !.kind = "os", !.field = "family", !.val = "unix"]}) }
+CPs == IF Big THEN PropTables ELSE PropTables \ {<<P("a", <<L("1.0")>>)>>, <<>>}
+PPs == IF Big THEN PropTables ELSE {<<>>, <<P("a", <<L("2.0")>>), P("b", <<R("a"), L("-x")>>)>>}
+CDs == UNION {DepLists(vt) : vt \in (IF Big THEN VerTemplates ELSE {<<R("a")>>, <<R("project.version")>>, <<R("c")>>})}
+PMs == IF Big THEN MgmtLists ELSE {<<>>, <<Dep("g", "z", <<R("a")>>, "", "", "", FALSE, <<>>), Dep("b", "bom", <<L("1.0")>>, "pom", "", "import", FALSE, <<>>)>>}
+ActSet == IF Big THEN Acts ELSE {[NoAct EXCEPT !.kind = "default"], [NoAct EXCEPT !.kind = "jdk", !.nums = <<11>>, !.text = "11"], [NoAct EXCEPT !.kind = "jdkrange", !.lo = <<1, 8>>, !.hi = <<9>>, !.text = "[1.8,9)"], [NoAct EXCEPT !.kind = "os", !.field = "family", !.val = "unix"]}
 \* termination: every table over three names with seven value forms, seven query templates
 ValForms == { <<L("lit")>>, <<R("a")>>, <<R("b")>>, <<R("c")>>, <<L("x"), R("a"), L("y"), R("b")>>, <<R("undefined")>>, <<R("a"), R("a")>> }
 QuerySeq == TLCEval(SetToSeq(ValForms))
-Next == kind = "start" /\ \/ (kind' = "lineage" /\ \E lin \in {l \in Lineages : (l[1].parent = 0 => Len(l) = 1)} : item' = lin)
+\* nested quantifiers instead of one set of all lineages: TLC enumerates them lazily (the set has several hundred thousand
+\* large records in the thorough tier); without a parent the parent's choices are fixed so that no lineage is emitted twice
+Next == kind = "start" /\ \/ (kind' = "lineage" /\ \E np \in {0, 1, 2}, cp \in CPs, cd \in CDs, cm \in MgmtLists, prof \in {0, 1, 2}, act \in ActSet :
+                                   \E pp \in (IF np = 0 THEN {<<>>} ELSE PPs), pd \in (IF np = 0 THEN {<<>>} ELSE ParentDeps), pm \in (IF np = 0 THEN {<<>>} ELSE PMs) :
+                                      (np = 0 => prof # 2) /\ item' = Lin(np, FALSE, cp, pp, cd, pd, cm, pm, prof, act))
                            \/ (kind' = "table" /\ \E va \in ValForms, vb \in ValForms, vc \in ValForms : item' = <<va, vb, vc>>)
 InDom(lin) == ~HasCycle(lin)
 Emit == /\ (kind = "lineage" => CSVWrite("%1$s", <<ToJson([kind |-> "lineage", lineage |-> item, boms |-> <<Bom>>, indomain |-> InDom(item),
